@@ -275,6 +275,105 @@ def js_NumsOKFields (jf fol : String → String) : Fields → Prop
   | (_, v) :: rest => js_NumsOK jf fol v ∧ js_NumsOKFields jf fol rest
 end
 
+/-! ### distinct keys
+
+  The reader stores the members of an object into a Go map: of two members with the same key only
+  the LATER one survives (`jsonParseMembers`).  So the text of a value reads back as that value only
+  when no map inside it has two members with the same key.  Well-formed values (`Val.WF`: keys
+  strictly sorted) meet this. -/
+
+/-- no two entries of an association list have the same key -/
+def js_keysDistinct {α : Type} : List (String × α) → Bool
+  | [] => true
+  | (k, _) :: rest => !(rest.any fun e => e.1 == k) && js_keysDistinct rest
+
+mutual
+/-- the keys of every map inside the value are pairwise distinct -/
+def js_DistinctKeys : Val → Bool
+  | .list xs => js_DistinctKeysList xs
+  | .map kvs => js_keysDistinct kvs && js_DistinctKeysFields kvs
+  | _ => true
+def js_DistinctKeysList : List Val → Bool
+  | [] => true
+  | x :: xs => js_DistinctKeys x && js_DistinctKeysList xs
+def js_DistinctKeysFields : Fields → Bool
+  | [] => true
+  | (_, v) :: rest => js_DistinctKeys v && js_DistinctKeysFields rest
+end
+
+mutual
+/-- the same on what the reader returns -/
+def js_RawDistinct : Raw → Bool
+  | .list xs => js_RawDistinctList xs
+  | .map kvs => js_keysDistinct kvs && js_RawDistinctFields kvs
+  | .listOfMaps ms => js_RawDistinctMaps ms
+  | _ => true
+def js_RawDistinctList : List Raw → Bool
+  | [] => true
+  | x :: xs => js_RawDistinct x && js_RawDistinctList xs
+def js_RawDistinctFields : List (String × Raw) → Bool
+  | [] => true
+  | (_, v) :: rest => js_RawDistinct v && js_RawDistinctFields rest
+def js_RawDistinctMaps : List (List (String × Raw)) → Bool
+  | [] => true
+  | m :: ms => js_keysDistinct m && js_RawDistinctFields m && js_RawDistinctMaps ms
+end
+
+theorem js_any_key_false_iff {α : Type} (l : List (String × α)) (k : String) :
+    (l.any fun e => e.1 == k) = false ↔ ∀ p ∈ l, p.1 ≠ k := by
+  induction l with
+  | nil => simp
+  | cons p l ih => simp [List.any_cons, ih]
+
+/-- the Bool predicate says that the list of keys has no duplicates -/
+theorem js_keysDistinct_iff_nodup {α : Type} (l : List (String × α)) :
+    js_keysDistinct l = true ↔ (l.map (·.1)).Nodup := by
+  induction l with
+  | nil => simp [js_keysDistinct]
+  | cons p l ih =>
+    obtain ⟨k, x⟩ := p
+    simp only [js_keysDistinct, Bool.and_eq_true, Bool.not_eq_true', js_any_key_false_iff, ih,
+      List.map_cons, List.nodup_cons, List.mem_map, not_exists, not_and]
+
+/-- strictly sorted keys are pairwise distinct -/
+theorem js_keysDistinct_of_sorted : ∀ (m : Fields), Fields.SortedKeys m → js_keysDistinct m = true
+  | [], _ => rfl
+  | (k, v) :: rest, h => by
+    obtain ⟨h1, h2⟩ := sorted_cons_iff.1 h
+    simp only [js_keysDistinct, Bool.and_eq_true, Bool.not_eq_true', js_any_key_false_iff]
+    exact ⟨fun p hp => str_ne_of_gt (h1 p hp), js_keysDistinct_of_sorted rest h2⟩
+
+mutual
+/-- a well-formed value has pairwise distinct keys in every map -/
+theorem js_distinct_of_wfB : ∀ (v : Val), v.wfB = true → js_DistinctKeys v = true
+  | .null, _ | .bool _, _ | .int _, _ | .flt _, _ | .str _, _ => by simp [js_DistinctKeys]
+  | .list xs, h => by
+    simp only [Val.wfB] at h
+    simp only [js_DistinctKeys]
+    exact js_distinctList_of_wfB xs h
+  | .map kvs, h => by
+    simp only [Val.wfB, Bool.and_eq_true] at h
+    simp only [js_DistinctKeys, Bool.and_eq_true]
+    exact ⟨js_keysDistinct_of_sorted kvs (sortedKeysB_iff.1 h.1), js_distinctFields_of_wfB kvs h.2⟩
+theorem js_distinctList_of_wfB : ∀ (l : List Val), Val.wfListB l = true →
+    js_DistinctKeysList l = true
+  | [], _ => rfl
+  | x :: xs, h => by
+    simp only [Val.wfListB, Bool.and_eq_true] at h
+    simp only [js_DistinctKeysList, Bool.and_eq_true]
+    exact ⟨js_distinct_of_wfB x h.1, js_distinctList_of_wfB xs h.2⟩
+theorem js_distinctFields_of_wfB : ∀ (l : Fields), Val.wfFieldsB l = true →
+    js_DistinctKeysFields l = true
+  | [], _ => rfl
+  | (k, v) :: rest, h => by
+    simp only [Val.wfFieldsB, Bool.and_eq_true] at h
+    simp only [js_DistinctKeysFields, Bool.and_eq_true]
+    exact ⟨js_distinct_of_wfB v h.1, js_distinctFields_of_wfB rest h.2⟩
+end
+
+theorem js_distinct_of_wf {v : Val} (h : v.WF) : js_DistinctKeys v = true :=
+  js_distinct_of_wfB v h
+
 /-- the values the JSON codec represents exactly -/
 def js_Repr (jf fol : String → String) (v : Val) : Prop := v.WF ∧ js_NumsOK jf fol v
 
@@ -295,6 +394,12 @@ def js_rawFields (jf fol : String → String) : Fields → List (String × Raw)
   | [] => []
   | (k, v) :: rest => (k, js_rawOf jf fol v) :: js_rawFields jf fol rest
 end
+
+theorem js_rawFields_any (jf fol : String → String) (k : String) : ∀ (l : Fields),
+    ((js_rawFields jf fol l).any fun e => e.1 == k) = l.any fun e => e.1 == k
+  | [] => by rw [js_rawFields]; rfl
+  | (k', v) :: rest => by
+    rw [js_rawFields, List.any_cons, List.any_cons, js_rawFields_any jf fol k rest]
 
 theorem js_float_tok {jf fol : String → String} {r : String} (h : js_FloatOK jf fol r) :
     ∃ st, jnumRun .start (jf r).toList = some st ∧ jnumAccept st = true := by
@@ -396,54 +501,55 @@ mutual
 /-- the parser on the text of a value followed by `rest` returns the raw form of the value, and
     `rest` -/
 theorem js_parse_enc (jf fol : String → String) : ∀ (v : Val) (fuel : Nat) (rest : List Char),
-    js_NumsOK jf fol v → (jsonEncodeChars jf v).length ≤ fuel → js_Stop rest →
+    js_NumsOK jf fol v → js_DistinctKeys v = true → (jsonEncodeChars jf v).length ≤ fuel →
+    js_Stop rest →
     jsonParseValue fol fuel (jsonEncodeChars jf v ++ rest) = .ok (js_rawOf jf fol v, rest)
-  | .null, fuel, rest, _, hf, _ => by
+  | .null, fuel, rest, _, _, hf, _ => by
     obtain ⟨fuel, rfl⟩ := js_fuel_succ (fuel := fuel) (n := 3) (by simpa [jsonEncodeChars] using hf)
     rw [jsonEncodeChars, List.cons_append, jsonParseValue.eq_2, js_skipWs_cons (by decide)]
     have := js_stripPrefix_append ['u', 'l', 'l'] rest
     simp only [List.cons_append, List.nil_append] at this
     simp [this, js_rawOf]
-  | .bool true, fuel, rest, _, hf, _ => by
+  | .bool true, fuel, rest, _, _, hf, _ => by
     obtain ⟨fuel, rfl⟩ := js_fuel_succ (fuel := fuel) (n := 3) (by simpa [jsonEncodeChars] using hf)
     rw [jsonEncodeChars, List.cons_append, jsonParseValue.eq_2, js_skipWs_cons (by decide)]
     have := js_stripPrefix_append ['r', 'u', 'e'] rest
     simp only [List.cons_append, List.nil_append] at this
     simp [this, js_rawOf]
-  | .bool false, fuel, rest, _, hf, _ => by
+  | .bool false, fuel, rest, _, _, hf, _ => by
     obtain ⟨fuel, rfl⟩ := js_fuel_succ (fuel := fuel) (n := 4) (by simpa [jsonEncodeChars] using hf)
     rw [jsonEncodeChars, List.cons_append, jsonParseValue.eq_2, js_skipWs_cons (by decide)]
     have := js_stripPrefix_append ['a', 'l', 's', 'e'] rest
     simp only [List.cons_append, List.nil_append] at this
     simp [this, js_rawOf]
-  | .int i, fuel, rest, _, hf, hs => by
+  | .int i, fuel, rest, _, _, hf, hs => by
     obtain ⟨st, h, ha⟩ := js_int_tok i
     obtain ⟨c, t, e, _⟩ := js_tok_head h ha
     rw [jsonEncodeChars] at hf ⊢
     obtain ⟨fuel, rfl⟩ := js_fuel_succ (fuel := fuel) (n := t.length) (by simpa [e] using hf)
     rw [js_parse_number fol _ st h ha fuel rest hs, js_rawOf]
-  | .flt r, fuel, rest, hv, hf, hs => by
+  | .flt r, fuel, rest, hv, _, hf, hs => by
     obtain ⟨st, h, ha⟩ := js_float_tok (by simpa [js_NumsOK] using hv)
     obtain ⟨c, t, e, _⟩ := js_tok_head h ha
     rw [jsonEncodeChars] at hf ⊢
     obtain ⟨fuel, rfl⟩ := js_fuel_succ (fuel := fuel) (n := t.length) (by simpa [e] using hf)
     rw [js_parse_number fol _ st h ha fuel rest hs, js_rawOf]
-  | .str s, fuel, rest, _, hf, _ => by
+  | .str s, fuel, rest, _, _, hf, _ => by
     rw [jsonEncodeChars] at hf ⊢
     obtain ⟨fuel, rfl⟩ := js_fuel_succ (fuel := fuel) (n := 0) (by simp [jsonQuote] at hf; omega)
     rw [js_quote_append, jsonParseValue.eq_2, js_skipWs_cons (by decide)]
     simp [js_parseStr_escape, js_rawOf, String.ofList_toList]
-  | .list [], fuel, rest, _, hf, _ => by
+  | .list [], fuel, rest, _, _, hf, _ => by
     rw [jsonEncodeChars, jsonEncodeElems] at hf ⊢
     obtain ⟨fuel, rfl⟩ := js_fuel_succ (fuel := fuel) (n := 0) (by simp at hf; omega)
     rw [List.cons_append, jsonParseValue.eq_2, js_skipWs_cons (by decide)]
     simp [js_skipWs_cons (c := ']') (by decide), js_rawOf, js_rawList]
-  | .list (x :: xs), fuel, rest, hv, hf, _ => by
+  | .list (x :: xs), fuel, rest, hv, hd, hf, _ => by
     rw [jsonEncodeChars] at hf ⊢
     obtain ⟨fuel, rfl⟩ := js_fuel_succ (fuel := fuel) (n := 0) (by simp at hf; omega)
     have hv' : js_NumsOKList jf fol (x :: xs) := by simpa [js_NumsOK] using hv
     have ih := js_parse_elems jf fol (x :: xs) fuel rest (by simp) hv'
-      (by simp at hf; simpa using hf)
+      (by simpa [js_DistinctKeys] using hd) (by simp at hf; simpa using hf)
     obtain ⟨c, t, e, hc⟩ := js_enc_head jf fol x (by simp only [js_NumsOKList] at hv'; exact hv'.1)
     obtain ⟨h1, h2, _, _, _⟩ := js_valueStart_facts hc
     have e' : jsonEncodeElems jf (x :: xs) ++ rest =
@@ -452,16 +558,17 @@ theorem js_parse_enc (jf fol : String → String) : ∀ (v : Val) (fuel : Nat) (
     rw [List.cons_append, jsonParseValue.eq_2, js_skipWs_cons (by decide)]
     rw [e'] at ih ⊢
     simp [js_skipWs_cons h1, h2, ih, js_rawOf]
-  | .map [], fuel, rest, _, hf, _ => by
+  | .map [], fuel, rest, _, _, hf, _ => by
     rw [jsonEncodeChars, jsonEncodeMembers] at hf ⊢
     obtain ⟨fuel, rfl⟩ := js_fuel_succ (fuel := fuel) (n := 0) (by simp at hf; omega)
     rw [List.cons_append, jsonParseValue.eq_2, js_skipWs_cons (by decide)]
     simp [js_skipWs_cons (c := '}') (by decide), js_rawOf, js_rawFields]
-  | .map (p :: ps), fuel, rest, hv, hf, _ => by
+  | .map (p :: ps), fuel, rest, hv, hd, hf, _ => by
     rw [jsonEncodeChars] at hf ⊢
     obtain ⟨fuel, rfl⟩ := js_fuel_succ (fuel := fuel) (n := 0) (by simp at hf; omega)
     have hv' : js_NumsOKFields jf fol (p :: ps) := by simpa [js_NumsOK] using hv
-    have ih := js_parse_members jf fol (p :: ps) fuel rest (by simp) hv'
+    simp only [js_DistinctKeys, Bool.and_eq_true] at hd
+    have ih := js_parse_members jf fol (p :: ps) fuel rest (by simp) hv' hd.1 hd.2
       (by simp at hf; simpa using hf)
     obtain ⟨k, v⟩ := p
     have e' : jsonEncodeMembers jf ((k, v) :: ps) ++ rest =
@@ -473,38 +580,44 @@ theorem js_parse_enc (jf fol : String → String) : ∀ (v : Val) (fuel : Nat) (
     simp [js_skipWs_cons (c := '"') (by decide), ih, js_rawOf]
 /-- … the same for the elements of a non-empty array up to and including the `]` -/
 theorem js_parse_elems (jf fol : String → String) : ∀ (l : List Val) (fuel : Nat)
-    (rest : List Char), l ≠ [] → js_NumsOKList jf fol l → (jsonEncodeElems jf l).length ≤ fuel →
+    (rest : List Char), l ≠ [] → js_NumsOKList jf fol l → js_DistinctKeysList l = true →
+    (jsonEncodeElems jf l).length ≤ fuel →
     jsonParseElems fol fuel (jsonEncodeElems jf l ++ rest) = .ok (js_rawList jf fol l, rest)
-  | [], _, _, hne, _, _ => absurd rfl hne
-  | [x], fuel, rest, _, hv, hf => by
+  | [], _, _, hne, _, _, _ => absurd rfl hne
+  | [x], fuel, rest, _, hv, hd, hf => by
     rw [jsonEncodeElems, jsonEncodeElemsTail] at hf ⊢
     obtain ⟨fuel, rfl⟩ := js_fuel_succ (fuel := fuel) (n := 0) (by simp at hf; omega)
     simp only [js_NumsOKList] at hv
-    have h1 := js_parse_enc jf fol x fuel (']' :: rest) hv.1 (by simp at hf; omega)
+    simp only [js_DistinctKeysList, Bool.and_eq_true] at hd
+    have h1 := js_parse_enc jf fol x fuel (']' :: rest) hv.1 hd.1 (by simp at hf; omega)
       (js_stop_cons (by decide) _)
     rw [List.append_assoc, List.singleton_append, jsonParseElems.eq_2, h1]
     simp [js_skipWs_cons (c := ']') (by decide), js_rawList]
-  | x :: y :: ys, fuel, rest, _, hv, hf => by
+  | x :: y :: ys, fuel, rest, _, hv, hd, hf => by
     rw [jsonEncodeElems, js_elemsTail_cons] at hf ⊢
     obtain ⟨fuel, rfl⟩ := js_fuel_succ (fuel := fuel) (n := 0) (by simp at hf; omega)
     simp only [js_NumsOKList] at hv
+    have hd' : js_DistinctKeys x = true ∧ js_DistinctKeysList (y :: ys) = true := by
+      rw [js_DistinctKeysList, Bool.and_eq_true] at hd; exact hd
     have h1 := js_parse_enc jf fol x fuel (',' :: (jsonEncodeElems jf (y :: ys) ++ rest)) hv.1
-      (by simp at hf; omega) (js_stop_cons (by decide) _)
+      hd'.1 (by simp at hf; omega) (js_stop_cons (by decide) _)
     have h2 := js_parse_elems jf fol (y :: ys) fuel rest (by simp)
-      (by simp only [js_NumsOKList]; exact hv.2) (by simp at hf; omega)
+      (by simp only [js_NumsOKList]; exact hv.2) hd'.2 (by simp at hf; omega)
     rw [List.append_assoc, List.cons_append, jsonParseElems.eq_2, h1]
     simp [js_skipWs_cons (c := ',') (by decide), h2, js_rawList]
 /-- … and for the members of a non-empty object up to and including the `}` -/
 theorem js_parse_members (jf fol : String → String) : ∀ (l : Fields) (fuel : Nat)
-    (rest : List Char), l ≠ [] → js_NumsOKFields jf fol l →
-    (jsonEncodeMembers jf l).length ≤ fuel →
+    (rest : List Char), l ≠ [] → js_NumsOKFields jf fol l → js_keysDistinct l = true →
+    js_DistinctKeysFields l = true → (jsonEncodeMembers jf l).length ≤ fuel →
     jsonParseMembers fol fuel (jsonEncodeMembers jf l ++ rest) = .ok (js_rawFields jf fol l, rest)
-  | [], _, _, hne, _, _ => absurd rfl hne
-  | [(k, v)], fuel, rest, _, hv, hf => by
+  | [], _, _, hne, _, _, _, _ => absurd rfl hne
+  | [(k, v)], fuel, rest, _, hv, _, hd, hf => by
     rw [jsonEncodeMembers, jsonEncodeMembersTail] at hf ⊢
     obtain ⟨fuel, rfl⟩ := js_fuel_succ (fuel := fuel) (n := 0) (by simp [jsonQuote] at hf; omega)
     simp only [js_NumsOKFields] at hv
-    have h1 := js_parse_enc jf fol v fuel ('}' :: rest) hv.1 (by simp [jsonQuote] at hf; omega)
+    simp only [js_DistinctKeysFields, Bool.and_eq_true] at hd
+    have h1 := js_parse_enc jf fol v fuel ('}' :: rest) hv.1 hd.1
+      (by simp [jsonQuote] at hf; omega)
       (js_stop_cons (by decide) _)
     have e' : jsonQuote k.toList ++ ':' :: (jsonEncodeChars jf v ++ ['}']) ++ rest =
         '"' :: (jsonEscape k.toList ++ '"' :: (':' :: (jsonEncodeChars jf v ++ '}' :: rest))) := by
@@ -512,22 +625,30 @@ theorem js_parse_members (jf fol : String → String) : ∀ (l : Fields) (fuel :
     rw [e', jsonParseMembers.eq_2, js_skipWs_cons (by decide)]
     simp [js_parseStr_escape, js_skipWs_cons (c := ':') (by decide), h1,
       js_skipWs_cons (c := '}') (by decide), js_rawFields, String.ofList_toList]
-  | (k, v) :: q :: qs, fuel, rest, _, hv, hf => by
+  | (k, v) :: q :: qs, fuel, rest, _, hv, hk, hd, hf => by
     rw [jsonEncodeMembers, js_membersTail_cons] at hf ⊢
     obtain ⟨fuel, rfl⟩ := js_fuel_succ (fuel := fuel) (n := 0) (by simp [jsonQuote] at hf; omega)
     simp only [js_NumsOKFields] at hv
+    have hd' : js_DistinctKeys v = true ∧ js_DistinctKeysFields (q :: qs) = true := by
+      rw [js_DistinctKeysFields, Bool.and_eq_true] at hd; exact hd
+    have hk' : ((q :: qs).any fun e => e.1 == k) = false ∧ js_keysDistinct (q :: qs) = true := by
+      rw [js_keysDistinct, Bool.and_eq_true, Bool.not_eq_true'] at hk; exact hk
     have h1 := js_parse_enc jf fol v fuel (',' :: (jsonEncodeMembers jf (q :: qs) ++ rest)) hv.1
-      (by simp [jsonQuote] at hf; omega) (js_stop_cons (by decide) _)
-    have h2 := js_parse_members jf fol (q :: qs) fuel rest (by simp) hv.2
+      hd'.1 (by simp [jsonQuote] at hf; omega) (js_stop_cons (by decide) _)
+    have h2 := js_parse_members jf fol (q :: qs) fuel rest (by simp) hv.2 hk'.2 hd'.2
       (by simp [jsonQuote] at hf; omega)
+    have hany : ((js_rawFields jf fol (q :: qs)).any fun e => e.1 == String.ofList k.toList)
+        = false := by
+      rw [String.ofList_toList, js_rawFields_any]; exact hk'.1
     have e' : jsonQuote k.toList ++ ':' :: (jsonEncodeChars jf v ++
           ',' :: jsonEncodeMembers jf (q :: qs)) ++ rest =
         '"' :: (jsonEscape k.toList ++ '"' :: (':' :: (jsonEncodeChars jf v ++
           ',' :: (jsonEncodeMembers jf (q :: qs) ++ rest)))) := by
       simp [jsonQuote]
     rw [e', jsonParseMembers.eq_2, js_skipWs_cons (by decide)]
-    simp [js_parseStr_escape, js_skipWs_cons (c := ':') (by decide), h1,
-      js_skipWs_cons (c := ',') (by decide), h2, js_rawFields, String.ofList_toList]
+    simp only [if_true, js_parseStr_escape, js_skipWs_cons (c := ':') (by decide), h1,
+      js_skipWs_cons (c := ',') (by decide), h2, hany]
+    simp [js_rawFields, String.ofList_toList]
 end
 
 /-! ## `normalize` of what the parser returns -/
@@ -603,13 +724,13 @@ theorem js_decodeDocs_nil (fol : String → String) (fuel : Nat) :
 
 /-- one document in front of the rest of a stream -/
 theorem js_decodeDocs_doc (jf fol : String → String) (v : Val) (hv : js_NumsOK jf fol v)
-    (fuel : Nat) (rest : List Char) (hs : js_Stop rest) :
+    (hd : js_DistinctKeys v = true) (fuel : Nat) (rest : List Char) (hs : js_Stop rest) :
     jsonDecodeDocs fol (fuel + 1) (jsonEncodeChars jf v ++ rest) =
       match jsonDecodeDocs fol fuel rest with
       | .ok xs => .ok (js_rawOf jf fol v :: xs)
       | .error e => .error e := by
   obtain ⟨c, t, e, hc⟩ := js_enc_head jf fol v hv
-  have h1 := js_parse_enc jf fol v (2 * (t ++ rest).length + 3) rest hv
+  have h1 := js_parse_enc jf fol v (2 * (t ++ rest).length + 3) rest hv hd
     (by rw [e]; simp; omega) hs
   rw [e] at h1 ⊢
   rw [List.cons_append] at h1 ⊢
@@ -618,21 +739,23 @@ theorem js_decodeDocs_doc (jf fol : String → String) (v : Val) (hv : js_NumsOK
   rfl
 
 theorem js_decode_stream (jf fol : String → String) : ∀ (vs : List Val) (fuel : Nat),
-    js_NumsOKList jf fol vs → vs.length + 1 ≤ fuel →
+    js_NumsOKList jf fol vs → js_DistinctKeysList vs = true → vs.length + 1 ≤ fuel →
     jsonDecodeDocs fol fuel (jsonEncodeStreamChars jf vs) = .ok (js_rawList jf fol vs) := by
   intro vs
   induction vs with
   | nil =>
-    intro fuel _ hf
+    intro fuel _ _ hf
     obtain ⟨fuel, rfl⟩ := js_fuel_succ (fuel := fuel) (n := 0) (by simpa using hf)
     rw [jsonEncodeStreamChars, js_decodeDocs_nil, js_rawList]
   | cons v vs ih =>
-    intro fuel hv hf
+    intro fuel hv hd hf
     simp only [js_NumsOKList] at hv
+    simp only [js_DistinctKeysList, Bool.and_eq_true] at hd
     obtain ⟨fuel, rfl⟩ := js_fuel_succ (fuel := fuel) (n := 0) (by omega)
     obtain ⟨fuel, rfl⟩ := js_fuel_succ (fuel := fuel) (n := 0) (by simp at hf; omega)
-    rw [jsonEncodeStreamChars, js_decodeDocs_doc jf fol v hv.1 _ _ (js_stop_cons (by decide) _),
-      js_decodeDocs_ws fol fuel (by decide), ih (fuel + 1) hv.2 (by simp at hf; omega), js_rawList]
+    rw [jsonEncodeStreamChars, js_decodeDocs_doc jf fol v hv.1 hd.1 _ _ (js_stop_cons (by decide) _),
+      js_decodeDocs_ws fol fuel (by decide), ih (fuel + 1) hv.2 hd.2 (by simp at hf; omega),
+      js_rawList]
 
 theorem js_stream_length (jf : String → String) : ∀ (vs : List Val),
     vs.length ≤ (jsonEncodeStreamChars jf vs).length
@@ -664,7 +787,7 @@ theorem js_loadStream_encodeStream (jf fol : String → String) (vs : List Val)
   have h2 := js_wfListB_of_forall vs (fun v hv => (h v hv).1)
   have := js_stream_length jf vs
   rw [jsonLoadStream, jsonDecodeStream, jsonEncodeStream, String.toList_ofList,
-    js_decode_stream jf fol vs _ h1 (by omega)]
+    js_decode_stream jf fol vs _ h1 (js_distinctList_of_wfB vs h2) (by omega)]
   exact js_normalizeList_raw jf fol vs h2 h1
 
 /-- one value, without the newline the stream writer adds -/
@@ -675,7 +798,7 @@ theorem js_load_encode (jf fol : String → String) (v : Val) (h : js_Repr jf fo
     obtain ⟨c, t, e, _⟩ := js_enc_head jf fol v h.2
     obtain ⟨fuel, hfu⟩ := js_fuel_succ (fuel := (jsonEncodeChars jf v).length) (n := 0)
       (by rw [e]; simp)
-    have := js_decodeDocs_doc jf fol v h.2 (fuel + 1) [] js_stop_nil
+    have := js_decodeDocs_doc jf fol v h.2 (js_distinct_of_wf h.1) (fuel + 1) [] js_stop_nil
     rw [List.append_nil, js_decodeDocs_nil] at this
     rw [hfu, this]
   rw [jsonLoad, jsonLoadStream, jsonDecodeStream, jsonEncode, String.toList_ofList, hd]
@@ -1159,14 +1282,196 @@ theorem js_parse_length (fol : String → String) : ∀ (fuel : Nat),
                     · split at h
                       · rename_i ys r5 he
                         have := ihM _ _ _ he
-                        simp only [Except.ok.injEq, Prod.mk.injEq] at h
-                        rw [← h.2]; omega
+                        split at h <;>
+                          (simp only [Except.ok.injEq, Prod.mk.injEq] at h
+                           rw [← h.2]; omega)
                       · cases h
                     · split at h
                       · simp only [Except.ok.injEq, Prod.mk.injEq] at h
                         rw [← h.2]; omega
                       · cases h
               · cases h
+        · cases h
+
+/-! ## duplicate keys: what the reader returns has pairwise distinct keys in every object -/
+
+theorem js_parse_distinct (fol : String → String) : ∀ (fuel : Nat),
+    (∀ cs x r, jsonParseValue fol fuel cs = .ok (x, r) → js_RawDistinct x = true) ∧
+    (∀ cs xs r, jsonParseElems fol fuel cs = .ok (xs, r) → js_RawDistinctList xs = true) ∧
+    (∀ cs kvs r, jsonParseMembers fol fuel cs = .ok (kvs, r) →
+      js_keysDistinct kvs = true ∧ js_RawDistinctFields kvs = true) := by
+  intro fuel
+  induction fuel with
+  | zero =>
+    refine ⟨?_, ?_, ?_⟩ <;> intro cs x r h
+    · rw [jsonParseValue] at h; cases h
+    · rw [jsonParseElems] at h; cases h
+    · rw [jsonParseMembers] at h; cases h
+  | succ fuel ih =>
+    obtain ⟨ihV, ihE, ihM⟩ := ih
+    refine ⟨?_, ?_, ?_⟩
+    · intro cs x r h
+      rw [jsonParseValue.eq_2] at h
+      split at h
+      · cases h
+      · split at h
+        · split at h
+          · simp only [Except.ok.injEq, Prod.mk.injEq] at h
+            rw [← h.1]; simp [jsonNumberRaw, js_RawDistinct]
+          · cases h
+        · split at h
+          · split at h
+            · simp only [Except.ok.injEq, Prod.mk.injEq] at h
+              rw [← h.1]; simp [js_RawDistinct]
+            · cases h
+          · split at h
+            · split at h
+              · cases h
+              · split at h
+                · simp only [Except.ok.injEq, Prod.mk.injEq] at h
+                  rw [← h.1]; simp [js_RawDistinct, js_RawDistinctList]
+                · split at h
+                  · rename_i xs r'' he
+                    have := ihE _ _ _ he
+                    simp only [Except.ok.injEq, Prod.mk.injEq] at h
+                    rw [← h.1]; simpa [js_RawDistinct] using this
+                  · cases h
+            · split at h
+              · split at h
+                · cases h
+                · split at h
+                  · simp only [Except.ok.injEq, Prod.mk.injEq] at h
+                    rw [← h.1]; simp [js_RawDistinct, js_keysDistinct, js_RawDistinctFields]
+                  · split at h
+                    · rename_i kvs r'' he
+                      have := ihM _ _ _ he
+                      simp only [Except.ok.injEq, Prod.mk.injEq] at h
+                      rw [← h.1]; simpa [js_RawDistinct] using this
+                    · cases h
+              · split at h
+                · split at h
+                  · simp only [Except.ok.injEq, Prod.mk.injEq] at h
+                    rw [← h.1]; simp [js_RawDistinct]
+                  · cases h
+                · split at h
+                  · split at h
+                    · simp only [Except.ok.injEq, Prod.mk.injEq] at h
+                      rw [← h.1]; simp [js_RawDistinct]
+                    · cases h
+                  · split at h
+                    · split at h
+                      · simp only [Except.ok.injEq, Prod.mk.injEq] at h
+                        rw [← h.1]; simp [js_RawDistinct]
+                      · cases h
+                    · cases h
+    · intro cs xs r h
+      rw [jsonParseElems.eq_2] at h
+      split at h
+      · cases h
+      · rename_i x r1 hv
+        have hx := ihV _ _ _ hv
+        split at h
+        · cases h
+        · split at h
+          · split at h
+            · rename_i ys r'' he
+              have := ihE _ _ _ he
+              simp only [Except.ok.injEq, Prod.mk.injEq] at h
+              rw [← h.1]; simp [js_RawDistinctList, hx, this]
+            · cases h
+          · split at h
+            · simp only [Except.ok.injEq, Prod.mk.injEq] at h
+              rw [← h.1]; simp [js_RawDistinctList, hx]
+            · cases h
+    · intro cs kvs r h
+      rw [jsonParseMembers.eq_2] at h
+      split at h
+      · cases h
+      · split at h
+        · split at h
+          · cases h
+          · split at h
+            · cases h
+            · split at h
+              · split at h
+                · cases h
+                · rename_i x r3 hv
+                  have hx := ihV _ _ _ hv
+                  split at h
+                  · cases h
+                  · split at h
+                    · split at h
+                      · rename_i ys r5 he
+                        obtain ⟨a, b⟩ := ihM _ _ _ he
+                        split at h
+                        · simp only [Except.ok.injEq, Prod.mk.injEq] at h
+                          rw [← h.1]; exact ⟨a, b⟩
+                        · rename_i hany
+                          simp only [Except.ok.injEq, Prod.mk.injEq] at h
+                          rw [← h.1]
+                          simp only [Bool.not_eq_true] at hany
+                          simp [js_keysDistinct, js_RawDistinctFields, hany, a, b, hx]
+                      · cases h
+                    · split at h
+                      · simp only [Except.ok.injEq, Prod.mk.injEq] at h
+                        rw [← h.1]; simp [js_keysDistinct, js_RawDistinctFields, hx]
+                      · cases h
+              · cases h
+        · cases h
+
+/-- whatever the input: the members `jsonParseMembers` returns have pairwise distinct keys -/
+theorem js_parseMembers_nodup (fol : String → String) (fuel : Nat) (cs : List Char)
+    (kvs : List (String × Raw)) (r : List Char)
+    (h : jsonParseMembers fol fuel cs = .ok (kvs, r)) : (kvs.map (·.1)).Nodup :=
+  (js_keysDistinct_iff_nodup kvs).1 ((js_parse_distinct fol fuel).2.2 cs kvs r h).1
+
+/-- one member in front of more members: when the value's text parses to `x` and what follows the
+    comma parses to the members `kvs`, the result is `kvs` alone if `kvs` already has the key —
+    `x` is dropped unseen — and `(k, x) :: kvs` otherwise -/
+theorem js_parseMembers_step (fol : String → String) (fuel : Nat) (k txt more : List Char)
+    (x : Raw) (kvs : List (String × Raw)) (r : List Char)
+    (hv : jsonParseValue fol fuel txt = .ok (x, ',' :: more))
+    (hm : jsonParseMembers fol fuel more = .ok (kvs, r)) :
+    jsonParseMembers fol (fuel + 1) (jsonQuote k ++ ':' :: txt) =
+      .ok (if (kvs.any fun e => e.1 == String.ofList k) = true then kvs
+           else (String.ofList k, x) :: kvs, r) := by
+  rw [js_quote_append, jsonParseMembers.eq_2, js_skipWs_cons (by decide)]
+  simp only [if_true, js_parseStr_escape, js_skipWs_cons (c := ':') (by decide), hv,
+    js_skipWs_cons (c := ',') (by decide), hm]
+  split <;> rfl
+
+/-- float parameter of the duplicate-key tests: no float64 holds `-1e400` (`""` = ParseFloat
+    failed); every other literal stands for itself -/
+def js_dupFol (l : String) : String := if l = "-1e400" then "" else l
+
+/-- `{"k":-1e400,"k":{}}` -/
+def js_dupText1 : List Char :=
+  ['{', '"', 'k', '"', ':', '-', '1', 'e', '4', '0', '0', ',', '"', 'k', '"', ':', '{', '}', '}']
+/-- `{"k":-1e400}` -/
+def js_dupText2 : List Char := ['{', '"', 'k', '"', ':', '-', '1', 'e', '4', '0', '0', '}']
+/-- `{"a":1,"b":2,"a":3}` -/
+def js_dupText3 : List Char :=
+  ['{', '"', 'a', '"', ':', '1', ',', '"', 'b', '"', ':', '2', ',', '"', 'a', '"', ':', '3', '}']
+
+theorem js_decodeDocs_distinct (fol : String → String) : ∀ (fuel : Nat) (cs : List Char)
+    (xs : List Raw), jsonDecodeDocs fol fuel cs = .ok xs → js_RawDistinctList xs = true := by
+  intro fuel
+  induction fuel with
+  | zero => intro cs xs h; rw [jsonDecodeDocs] at h; cases h
+  | succ n ih =>
+    intro cs xs h
+    rw [jsonDecodeDocs] at h
+    split at h
+    · simp only [Except.ok.injEq] at h; rw [← h]; rfl
+    · split at h
+      · cases h
+      · rename_i x r hv
+        have hx := (js_parse_distinct fol _).1 _ _ _ hv
+        split at h
+        · rename_i ys he
+          have := ih _ _ he
+          simp only [Except.ok.injEq] at h
+          rw [← h]; simp [js_RawDistinctList, hx, this]
         · cases h
 
 theorem js_skipWs_cons_length {cs : List Char} {c : Char} {rest : List Char}
